@@ -1,13 +1,14 @@
 #!/usr/bin/env python3
 """import_seed.py <prop> <n> <caught_by comma list> [<missed_by comma list>] [note]
-Copies /tmp/seed_<prop>/{patchN.diff,demoN/,metaN.json} to /verif/seeded/<prop>-<n>/ and writes meta.json."""
+Copies $SEED_SRC (default /tmp/seed_<prop>)/{patchN.diff,demoN/,metaN.json} to /verif/seeded/<prop>-<$SEED_DST_N or n>/
+and writes meta.json."""
 import json, os, shutil, sys
 prop, n = sys.argv[1], sys.argv[2]
 caught = [x for x in sys.argv[3].split(',') if x] if len(sys.argv) > 3 else []
 missed = [x for x in sys.argv[4].split(',') if x] if len(sys.argv) > 4 else []
 note = sys.argv[5] if len(sys.argv) > 5 else ""
-src = '/tmp/seed_%s' % prop
-dst = '/verif/seeded/%s-%s' % (prop, n)
+src = os.environ.get('SEED_SRC', '/tmp/seed_%s' % prop)
+dst = '/verif/seeded/%s-%s' % (prop, os.environ.get('SEED_DST_N', n))
 os.makedirs(dst, exist_ok=True)
 shutil.copy(os.path.join(src, 'patch%s.diff' % n), os.path.join(dst, 'patch.diff'))
 if os.path.isdir(os.path.join(dst, 'demo')):
